@@ -128,4 +128,27 @@ def readHash (file : Bytes) : Option Bytes :=
     | (_, none) => none
     | (line, some _) => V1.goB64Decode (line.drop hashPrefix.length)
 
+/-- `strings.Contains(p.Type, "PRIVATE KEY")` -/
+def isKeyType (ty : Bytes) : Bool := (indexOf tPrivateKey ty).isSome
+
+/-- what `cert.ReadPem` collects and `FsDb.importPem` keeps, at the level of blocks (the DER inside is taken as it is) -/
+structure Parts where
+  cert : Option Bytes := none
+  key : Option Bytes := none
+  csr : Option Bytes := none
+deriving DecidableEq, Repr
+
+/-- `ReadPem`: the last CERTIFICATE block, the last CERTIFICATE REQUEST block, the last block whose type contains `PRIVATE KEY` -/
+def readParts (bl : List Block) : Parts :=
+  bl.foldl (fun p b =>
+    if b.type = tCertificate then { p with cert := some b.bytes }
+    else if b.type = tRequest then { p with csr := some b.bytes }
+    else if isKeyType b.type then { p with key := some b.bytes }
+    else p) {}
+
+/-- `importPem`: a private key is preferred over a request -/
+def importParts (bl : List Block) : Parts :=
+  let p := readParts bl
+  { p with csr := if p.key.isSome then none else p.csr }
+
 end Pem
